@@ -91,7 +91,7 @@ def CrcvOut.isFinal : CrcvOut → Bool
 /-- What one step may do, stated against the block numbers recorded before (`pre`) -/
 structure StoreSpec (single : Bool) (cap : Nat) (body : Bytes) (sz : Option Nat) (pre : Ranges) (num szx : Nat)
     (payload : Bytes) (st' : Option Crcv) (out : CrcvOut) : Prop where
-  inv : ∀ s', st' = some s' → s'.initial = false → CrcvInv single cap body sz s' ∧ s'.szx = szx
+  inv : ∀ s', st' = some s' → s'.initial = false → CrcvInv single cap body sz s'
   /-- single-body delivery: exactly the server's body, state released -/
   dBody : ∀ d l, out = CrcvOut.body d l → single = true ∧ d.take l = body ∧ l = body.length ∧ st' = none
   /-- per-block deliveries: this response's block at its offset, never delivered before in this lifetime -/
@@ -148,7 +148,7 @@ theorem crcvStore_spec (single : Bool) (cap : Nat) (junk : UInt8) (body : Bytes)
     intro o ho heq
     cases heq
     refine { inv := ?_, dBody := ?_, dBlock := ?_, dLast := ?_, complete := ?_, ra := ?_, grow := ?_, next := ?_, noPlain := ?_ }
-    · intro s' hs' _; cases hs'; exact ⟨hinv, rfl⟩
+    · intro s' hs' _; cases hs'; exact hinv
     · intro d l hb; rcases ho with ho | ho <;> (rw [ho] at hb; cases hb)
     · intro off p total nx hb; rcases ho with ho | ho <;> (rw [ho] at hb; cases hb)
     · intro off p total hb; rcases ho with ho | ho <;> (rw [ho] at hb; cases hb)
@@ -218,7 +218,7 @@ theorem crcvStore_spec (single : Bool) (cap : Nat) (junk : UInt8) (body : Bytes)
               refine { inv := ?_, dBody := ?_, dBlock := ?_, dLast := ?_, complete := ?_, ra := ?_, grow := ?_, next := ?_, noPlain := ?_ }
               · intro s' hs' _
                 cases hs'
-                exact ⟨{ wf := w1, cnt := w2, inRange := hin', buf := by intro hh; cases hh }, rfl⟩
+                exact { wf := w1, cnt := w2, inRange := hin', buf := by intro hh; cases hh }
               · intro d l hb; cases hb
               · intro off p total nx hb
                 cases hb
@@ -334,7 +334,7 @@ theorem crcvStore_spec (single : Bool) (cap : Nat) (junk : UInt8) (body : Bytes)
               refine { inv := ?_, dBody := ?_, dBlock := ?_, dLast := ?_, complete := ?_, ra := ?_, grow := ?_, next := ?_, noPlain := ?_ }
               · intro s' hs' _
                 cases hs'
-                exact ⟨hinv', rfl⟩
+                exact hinv'
               · intro d l hb; split at hb <;> cases hb
               · intro off p total nx hb; split at hb <;> cases hb
               · intro off p total hb; split at hb <;> cases hb
@@ -445,15 +445,16 @@ theorem crcvInit_facts (lg : Crcv) (szx size2 : Nat) (r : Resp) :
     (crcvInit lg szx size2 r).initial = false ∧
     (crcvInit lg szx size2 r).recv = (if lg.initial then [] else lg.recv) ∧
     (crcvInit lg szx size2 r).body = (if lg.initial then none else lg.body) ∧
-    (crcvInit lg szx size2 r).szx = (if lg.initial then szx else lg.szx) := by
+    (crcvInit lg szx size2 r).szx = (if lg.initial then szx else lg.szx) ∧
+    (lg.initial = false → (crcvInit lg szx size2 r).etag = lg.etag ∧ (crcvInit lg szx size2 r).etagSet = lg.etagSet) := by
   unfold crcvInit
   cases hi : lg.initial with
   | true =>
     simp only [if_true]
-    split <;> exact ⟨rfl, rfl, rfl, rfl⟩
+    split <;> exact ⟨rfl, rfl, rfl, rfl, by intro hh; cases hh⟩
   | false =>
     simp only [Bool.false_eq_true, if_false]
-    split <;> exact ⟨hi, rfl, rfl, rfl⟩
+    split <;> exact ⟨hi, rfl, rfl, rfl, fun _ => ⟨rfl, rfl⟩⟩
 
 /-- a StoreSpec for outputs that neither deliver nor record anything and leave an uninitialised / no state -/
 theorem storeSpec_inert (single : Bool) (cap : Nat) (body : Bytes) (sz : Option Nat) (pre : Ranges) (num szx : Nat)
@@ -472,11 +473,16 @@ theorem storeSpec_inert (single : Bool) (cap : Nat) (body : Bytes) (sz : Option 
   · intro n s hb; rcases ho with ho | ⟨_, ho⟩ <;> (rw [ho] at hb; cases hb)
   · intro p hb; rcases ho with ho | ⟨_, ho⟩ <;> (rw [ho] at hb; cases hb)
 
+/-- the response would pass the ETag tests against the (initialised) lg_crcv `s` -/
+def PassesEtag (s : Crcv) (r : Resp) : Prop :=
+  (∀ e, r.etag = some e → e = s.etag) ∧ (r.etag = none → s.etagSet = false)
+
 /-- a genuine Block2 response meeting the lg_crcv `lg` (initial or consistent with the body) -/
 theorem crcvBlock_spec (single : Bool) (cap : Nat) (junk : UInt8) (body : Bytes) (sz : Option Nat) (lg : Crcv)
     (num szx : Nat) (r : Resp) (st' : Option Crcv) (out : CrcvOut)
     (hsz : ∀ t, sz = some t → t ≤ body.length)
-    (hlg : lg.initial = false → CrcvInv single cap body sz lg ∧ lg.szx = szx)
+    (hlg : lg.initial = false → CrcvInv single cap body sz lg)
+    (hlgs : lg.initial = false → PassesEtag lg r → lg.szx = szx)
     (hnum : num < nBlocks body.length szx) (hpay : r.payload = slice body szx num) (hsize : r.size2 = sz)
     (h : crcvBlock single cap junk lg num (more body.length szx num) szx r = (st', out)) :
     StoreSpec single cap body sz (if lg.initial then [] else lg.recv) num szx r.payload st' out := by
@@ -507,40 +513,54 @@ theorem crcvBlock_spec (single : Bool) (cap : Nat) (junk : UInt8) (body : Bytes)
   obtain ⟨f1, f2, f3, f4⟩ := crcvSize2_facts sz (more body.length szx num)
     (num * chunkSize szx + (slice body szx num).length) body.length hsz hend hm0
   generalize crcvSize2 sz (more body.length szx num) (num * chunkSize szx + (slice body szx num).length) = size2 at h f1 f2 f3 f4
-  obtain ⟨i1, i2, i3, i4⟩ := crcvInit_facts lg szx size2 r
-  generalize crcvInit lg szx size2 r = lg2 at h i1 i2 i3 i4
-  -- the (re-)initialised lg_crcv is consistent with the body and tracks this block size
-  have hinv2 : CrcvInv single cap body sz lg2 ∧ lg2.szx = szx := by
+  obtain ⟨i1, i2, i3, i4, i5⟩ := crcvInit_facts lg szx size2 r
+  generalize crcvInit lg szx size2 r = lg2 at h i1 i2 i3 i4 i5
+  -- the (re-)initialised lg_crcv is consistent with the body
+  have hinv2 : CrcvInv single cap body sz lg2 := by
     cases hi : lg.initial with
     | true =>
       rw [hi] at i2 i3 i4
       simp only [if_true] at i2 i3 i4
-      refine ⟨{ wf := by rw [i2]; trivial, cnt := by rw [i2]; exact Nat.zero_le _, inRange := ?_, buf := ?_ }, i4⟩
+      refine { wf := by rw [i2]; trivial, cnt := by rw [i2]; exact Nat.zero_le _, inRange := ?_, buf := ?_ }
       · intro k hk; rw [i2] at hk; exact ((covers_nil k).mp hk).elim
       · intro _; rw [i3]; exact i2
     | false =>
       rw [hi] at i2 i3 i4
       simp only [Bool.false_eq_true, if_false] at i2 i3 i4
-      obtain ⟨hv, hs⟩ := hlg hi
-      refine ⟨{ wf := by rw [i2]; exact hv.wf, cnt := by rw [i2]; exact hv.cnt, inRange := ?_, buf := ?_ }, by rw [i4]; exact hs⟩
+      have hv := hlg hi
+      refine { wf := by rw [i2]; exact hv.wf, cnt := by rw [i2]; exact hv.cnt, inRange := ?_, buf := ?_ }
       · intro k hk; rw [i2] at hk; rw [i4]; exact hv.inRange k hk
       · intro hsg; rw [i3, i2, i4]; exact hv.buf hsg
-  obtain ⟨hinv2, hszx2⟩ := hinv2
+  -- … and tracks this block size whenever the response passes its ETag tests
+  have hszx2 : PassesEtag lg2 r → lg2.szx = szx := by
+    intro hp
+    cases hi : lg.initial with
+    | true => rw [hi] at i4; simpa using i4
+    | false =>
+      rw [hi] at i4
+      simp only [Bool.false_eq_true, if_false] at i4
+      obtain ⟨e1, e2⟩ := i5 hi
+      rw [i4]
+      apply hlgs hi
+      unfold PassesEtag at *
+      rw [← e1, ← e2]
+      exact hp
   rw [← i2]
-  subst hszx2
-  have hstore : ∀ (hh : crcvStore single cap junk lg2 num (more body.length lg2.szx num) lg2.szx (slice body lg2.szx num)
-      (slice body lg2.szx num) (num * chunkSize lg2.szx) size2 r.fmt = (st', out)),
-      StoreSpec single cap body sz lg2.recv num lg2.szx r.payload st' out := by
-    intro hh
+  have hstore : ∀ (hsx : lg2.szx = szx)
+      (hh : crcvStore single cap junk lg2 num (more body.length szx num) szx (slice body szx num)
+        (slice body szx num) (num * chunkSize szx) size2 r.fmt = (st', out)),
+      StoreSpec single cap body sz lg2.recv num szx r.payload st' out := by
+    intro hsx hh
+    subst hsx
     rw [hpay]
     exact crcvStore_spec single cap junk body sz lg2 num _ size2 r.fmt st' out hinv2 i1 hnum rfl f1 f2 f3
       (fun hm => f4 hm) hh
   have hfail : (st', out) = (some lg2, CrcvOut.err408) →
-      StoreSpec single cap body sz lg2.recv num lg2.szx r.payload st' out := by
+      StoreSpec single cap body sz lg2.recv num szx r.payload st' out := by
     intro heq
     cases heq
     refine { inv := ?_, dBody := ?_, dBlock := ?_, dLast := ?_, complete := ?_, ra := ?_, grow := ?_, next := ?_, noPlain := ?_ }
-    · intro s' hs' _; cases hs'; exact ⟨hinv2, rfl⟩
+    · intro s' hs' _; cases hs'; exact hinv2
     · intro d l hb; cases hb
     · intro off p total nx hb; cases hb
     · intro off p total hb; cases hb
@@ -565,7 +585,9 @@ theorem crcvBlock_spec (single : Bool) (cap : Nat) (junk : UInt8) (body : Bytes)
       cases h
       exact storeSpec_inert _ _ _ _ _ _ _ _ _ _ (by intro s' hs'; cases hs'; rfl) (Or.inr ⟨_, rfl⟩)
     · rw [if_neg hne] at h
-      exact hstore h
+      have heq : e = lg2.etag := by
+        apply Classical.byContradiction; intro hh; exact hne hh
+      exact hstore (hszx2 ⟨fun e' he' => (by rw [he] at he'; cases he'; exact heq), fun hn => (by rw [he] at hn; cases hn)⟩) h
   | none =>
     rw [he] at h
     simp only at h
@@ -573,14 +595,19 @@ theorem crcvBlock_spec (single : Bool) (cap : Nat) (junk : UInt8) (body : Bytes)
     · rw [if_pos hes] at h
       exact hfail h.symm
     · rw [if_neg hes] at h
-      exact hstore h
+      have hf : lg2.etagSet = false := by
+        cases hx : lg2.etagSet with
+        | true => exact (hes hx).elim
+        | false => rfl
+      exact hstore (hszx2 ⟨fun e' he' => (by rw [he] at he'; cases he'), fun _ => hf⟩) h
 
-/-- the response carries the server's slice for its NUM/SZX with the right More bit, in the block size the lg_crcv
-tracks the transfer in, and the Size2 option is the same (`sz`) on every response; ETag and Content-Format are
-arbitrary -/
+/-- the response carries the server's slice for its NUM/SZX with the right More bit, the Size2 option is the same
+(`sz`) on every response, and IF the response passes the ETag tests of the initialised lg_crcv it meets, its block size
+is the one that lg_crcv tracks the transfer in; ETag and Content-Format are arbitrary -/
 def Genuine2 (body : Bytes) (sz : Option Nat) (st : Option Crcv) (r : Resp) (num szx : Nat) : Prop :=
   r.blk = some (num, more body.length szx num, szx) ∧ num < nBlocks body.length szx ∧
-  r.payload = slice body szx num ∧ r.size2 = sz ∧ (∀ s, st = some s → s.initial = false → s.szx = szx)
+  r.payload = slice body szx num ∧ r.size2 = sz ∧
+  (∀ s, st = some s → s.initial = false → PassesEtag s r → s.szx = szx)
 
 theorem crcvStep_spec (single : Bool) (cap : Nat) (junk : UInt8) (body : Bytes) (sz : Option Nat) (st : Option Crcv)
     (r : Resp) (num szx : Nat) (st' : Option Crcv) (out : CrcvOut)
@@ -595,20 +622,21 @@ theorem crcvStep_spec (single : Bool) (cap : Nat) (junk : UInt8) (body : Bytes) 
   have hc := chunk_pos szx
   have hnonempty : more body.length szx num ≠ 0 ∨ r.payload.length ≠ 0 := by
     right; rw [g3]; omega
-  have hfound : ∀ (lg : Crcv), (lg.initial = false → CrcvInv single cap body sz lg ∧ lg.szx = szx) →
+  have hfound : ∀ (lg : Crcv), (lg.initial = false → CrcvInv single cap body sz lg) →
+      (lg.initial = false → PassesEtag lg r → lg.szx = szx) →
       crcvFound single cap junk lg r = (st', out) →
       StoreSpec single cap body sz (if lg.initial then [] else lg.recv) num szx r.payload st' out := by
-    intro lg hlg hf
+    intro lg hlg hlgs hf
     unfold crcvFound at hf
     rw [g1] at hf
     simp only at hf
     rw [if_pos hnonempty] at hf
-    exact crcvBlock_spec single cap junk body sz lg num szx r st' out hsz hlg g2 g3 g4 hf
+    exact crcvBlock_spec single cap junk body sz lg num szx r st' out hsz hlg hlgs g2 g3 g4 hf
   unfold crcvStep at h
   cases st with
   | some lg =>
     simp only at h
-    have := hfound lg (fun hi => ⟨hst lg rfl hi, g5 lg rfl hi⟩) h
+    have := hfound lg (fun hi => hst lg rfl hi) (fun hi hp => g5 lg rfl hi hp) h
     unfold effRecv
     exact this
   | none =>
@@ -629,7 +657,7 @@ theorem crcvStep_spec (single : Bool) (cap : Nat) (junk : UInt8) (body : Bytes) 
       · intro n s hb; cases hb
       · intro p hb; cases hb
     · rw [if_neg hn0] at h
-      have := hfound {} (by intro hi; cases hi) h
+      have := hfound {} (by intro hi; cases hi) (by intro hi; cases hi) h
       exact this
 
 /-! ## runs -/
@@ -685,6 +713,6 @@ theorem runCrcv_sound (single : Bool) (cap : Nat) (junk : UInt8) (body : Bytes) 
       · intro off p total hb
         obtain ⟨b, c⟩ := hspec.ra off p total hb
         exact ⟨num, szx, hg.2.1, b, by rw [c]; exact hg.2.2.1⟩
-    · exact runCrcv_sound single cap junk body sz hsz rs _ (fun s hs hi => (hspec.inv s hs hi).1) hrest o ho
+    · exact runCrcv_sound single cap junk body sz hsz rs _ (fun s hs hi => hspec.inv s hs hi) hrest o ho
 
 end Coap.Block
